@@ -12,6 +12,7 @@ R20.index   (cont.) a local declared outside the loop is assigned in every itera
             from index i-1 to i, hence none across a sub-range boundary)
 R20.same    the generic VectorizedOperationN / VoidOperationN bodies apply Op::apply once per index to every
             accessor at [v] (masked in-place variant: the argument at the raw index of v)
+R20.same    (cont.) every op_* functor of the operator / vector / quaternion / matrix families is one forwarding expression
 R20.len     at every dispatchTask(task, n) every array handed to the task is covered by a dominating
             match_dimension / measure_arguments / len() == n test that throws, is the array n was taken from, or was
             freshly constructed with n elements; measure_arguments measures every argument and match_lengths throws
@@ -324,7 +325,28 @@ def rule_gil(fx, out):
         out.append(('R20.gil', 'gil-region:%s' % sname(f), VIOLATED if bad else HOLDS, 'after PY_IMATH_LEAVE_PYTHON the function reaches %s' % bad[1] if bad else 'no Python API use while the GIL is released', bad[0] if bad else f['loc']))
     return n
 
-RULES = [('range', rule_range_index), ('len', rule_len), ('wr', rule_wr), ('gil', rule_gil)]
+OPFILES = ('PyImathOperators.h', 'PyImathVecOperators.h', 'PyImathQuatOperators.h', 'PyImathMatrix44.cpp')
+def rule_ops(fx, out):
+    """the per-element functors of the operator / method families are a single forwarding expression (operator, member
+    or free function of the element type): the array form then runs the very C++ function the scalar binding of the same
+    name is bound to, so the two agree bit for bit"""
+    n = 0; seen = set()
+    for f in fx.fns:
+        m = re.search(r'\b(op_\w+)\b', f.name)
+        if not m or f.name.split('::')[-1] != 'apply' or f.key in seen: continue
+        if not any(f.key.split(':')[0].endswith(x) for x in OPFILES): continue
+        seen.add(f.key); n += 1
+        top = [t['cls'] for t in f['top']]
+        calls = [e for e in f.events if e['k'] == 'call' and not re.search(r'operator (float|double|int|bool)|::operator\s*\w+$', e['name'])]
+        straight = len(f.blocks) <= 3 and not any('cond' in b for b in f.blocks.values())
+        single = len(top) == 1 and top[0] in ('ReturnStmt', 'CompoundAssignOperator', 'BinaryOperator', 'CXXMemberCallExpr', 'CXXOperatorCallExpr', 'CallExpr', 'ExprWithCleanups')
+        ok = straight and single and len(calls) <= 1
+        what = (calls[0]['name'].split('::')[-1] if calls else (f.events and [e['text'] for e in f.events if e['k'] == 'return'] or ['operator'])[0])
+        out.append(('R20.same', 'op:%s' % m.group(1), HOLDS if ok else VIOLATED,
+                    'forwards to %s' % what if ok else 'the functor body is not a single forwarding expression (%s; %d blocks, %d calls): the array form no longer runs the C++ function the scalar binding runs' % (top, len(f.blocks), len(calls)), f['loc']))
+    return n
+
+RULES = [('range', rule_range_index), ('len', rule_len), ('wr', rule_wr), ('gil', rule_gil), ('ops', rule_ops)]
 
 def main(rep, ws, tier):
     repo = build.REPO
@@ -346,6 +368,7 @@ def main(rep, ws, tier):
     rep.floor('dispatchTask sites + length helpers', counts['len'], 60)
     rep.floor('vectorised apply functions', counts['wr'], 8)
     rep.floor('GIL obligations', counts['gil'], 40)
+    rep.floor('operator functors', counts['ops'], 30)
     rep.trusted[:] = ['clang 14 front end (AST, CFG) through tools/pyrules', 'Boost.Python / CPython headers as installed']
     rep.assumptions += ['accessor operator[] reads/writes exactly the element of its index (R19.wguard covers the writable ones)',
                         'the WorkerPool calls execute() only with sub-ranges of [0, length) (its implementation is supplied by the host application)']
